@@ -698,6 +698,15 @@ class Interp:
             s = SCardSet()
             for x in items:
                 self.cardset_add(s, x)
+            idxs = [V.card_index(x) for x in items]
+            if len(items) > 1 and not any(isinstance(i, int) for i in idxs):
+                # counting lemma (trusted, listed in evidence): a set built from k pairwise
+                # distinct elements has k elements.  Distinctness must be entailed by the path
+                # condition; the known size is dropped as soon as the set is modified.
+                r, _ = self.ctx._check(z3.Not(z3.Distinct(idxs)), self.ctx.FEAS_TIMEOUT_MS)
+                if r == z3.unsat:
+                    s.known_len = (len(items), list(s.guards))
+                    self.used.add('<lemma> |{x1..xk}| = k for pairwise distinct x1..xk')
             return s
         if all(is_native(x) for x in items):
             try:
